@@ -106,6 +106,18 @@ func (s *Schema) W2(w int) interface{} {
 }
 func (s *Schema) U1(u int) int64 { return int64(7 + u) }
 
+// ZTxt is the TEXT value every row of key k of a zoo schema carries: texts of different lengths per key, so
+// that a value leaking from one row of an image into the next (shared scan buffers) is no row's value.
+func (s *Schema) ZTxt(k int) string {
+	switch k {
+	case 1:
+		return "alpha-beta-gamma-delta-epsilon"
+	case 2:
+		return "mu"
+	}
+	return fmt.Sprintf("text-of-key-%d", k)
+}
+
 // ToAbstract maps a concrete snapshot row to the abstract row; "other" (W=-2) if it is no image.
 func (s *Schema) ToAbstract(row map[string]interface{}) Row {
 	w1, ok1 := row["w1"].(int64)
@@ -135,7 +147,7 @@ func (s *Schema) ToAbstract(row map[string]interface{}) Row {
 			}
 		}
 		if fmt.Sprint(row["z_big"]) != big || fmt.Sprint(row["z_tiny"]) != "1" || fmt.Sprint(row["z_dbl"]) != "2.25" ||
-			!strings.HasPrefix(fmt.Sprint(row["z_ts"]), "2024-02-03 04:05:06") || row["z_txt"] != nil {
+			!strings.HasPrefix(fmt.Sprint(row["z_ts"]), "2024-02-03 04:05:06") || fmt.Sprint(row["z_txt"]) != s.ZTxt(s.KeyOf(row, 9)) {
 			return Row{-2, -2}
 		}
 	}
@@ -279,6 +291,9 @@ func (s *Schema) SQL(st Stmt, style Style) (string, []interface{}) {
 			cols = cols[1:]
 		}
 		cols = append(cols, "w1", "w2", "u1")
+		if s.Zoo {
+			cols = append(cols, "z_txt")
+		}
 		b.sb.WriteString("INSERT INTO " + tbl + " (" + strings.Join(cols, ", ") + ") VALUES ")
 		for i, k := range st.Keys {
 			if i > 0 {
@@ -298,6 +313,10 @@ func (s *Schema) SQL(st Stmt, style Style) (string, []interface{}) {
 			b.val(s.W2(st.W))
 			b.sb.WriteString(", ")
 			b.val(s.U1(st.U))
+			if s.Zoo {
+				b.sb.WriteString(", ")
+				b.val(s.ZTxt(k))
+			}
 			b.sb.WriteString(")")
 		}
 		if st.Kind == "ups" {
